@@ -44,6 +44,7 @@ type VerifC17Case struct {
 	Adds       []int `json:"adds"`   // entities appended to the source before run 2, 3, ...
 	Crons      int   `json:"crons"`  // further externally triggered runs once no re-run is pending
 	Timer      bool  `json:"timer"`  // let the real time.AfterFunc fire (40 ms) instead of simulating the timer
+	Burst      int   `json:"burst"`  // > 0: that many externally triggered runs 10 ms apart while re-runs are pending (real timer, 200 ms)
 }
 
 type VerifC17Run struct {
@@ -54,6 +55,7 @@ type VerifC17Run struct {
 	Retries   int     `json:"retries"`
 	Pending   bool    `json:"pending"` // a re-run was scheduled by this run
 	Panic     bool    `json:"panic"`
+	Killed    bool    `json:"killed"` // the kill was issued during this run
 }
 
 type VerifC17Obs struct {
@@ -69,6 +71,7 @@ type VerifC17Obs struct {
 	Delay   int           `json:"delay"` // RetryDelay after verifyErrorHandlers, in seconds
 	Runs    []VerifC17Run `json:"runs"`
 	DelayOk bool          `json:"delayOk"`
+	Starts  int           `json:"starts"` // burst mode: number of executions of the pipeline
 }
 
 type verifC17Err struct{ code int }
@@ -174,6 +177,7 @@ type verifC17Sink struct {
 	calls     int
 	killAt    int
 	kill      func()
+	killed    bool
 }
 
 func (s *verifC17Sink) GetConfig() map[string]interface{} {
@@ -185,6 +189,7 @@ func (s *verifC17Sink) processEntities(runner *Runner, entities []*server.Entity
 	call := s.calls
 	s.calls++
 	if call == s.killAt && s.kill != nil {
+		s.killed = true
 		s.kill()
 	}
 	if s.failCalls[call] {
@@ -466,6 +471,8 @@ func (env *VerifC17Env) runJob(c VerifC17Case) (obs VerifC17Obs) {
 		r.Ev = log.take()
 		r.Retries = retries()
 		r.Pending = r.Retries < before
+		r.Killed = sink.killed
+		sink.killed = false
 		return r
 	}
 	runOnce := func() (panicked bool) {
@@ -480,6 +487,38 @@ func (env *VerifC17Env) runJob(c VerifC17Case) (obs VerifC17Obs) {
 	}
 	obs.Outcome = "ok"
 	obs.DelayOk = true
+	if c.Burst > 0 {
+		// externally triggered runs arrive while re-runs are pending; count the executions
+		delay := 200 * time.Millisecond
+		if reh != nil {
+			reh.RetryDelay = int64(delay)
+		}
+		panicked := false
+		for i := 0; i < c.Burst; i++ {
+			if runOnce() {
+				panicked = true
+			}
+			time.Sleep(10 * time.Millisecond)
+		}
+		last := -1
+		for i := 0; i < 40; i++ {
+			pl.mu.Lock()
+			started, ended := pl.starts, pl.ends
+			pl.mu.Unlock()
+			if started == last && ended == started && env.runner.raffle.runningJob(id) == nil {
+				break
+			}
+			last = started
+			time.Sleep(delay + 300*time.Millisecond)
+		}
+		rec := snapshot(retries())
+		rec.Panic = panicked
+		obs.Runs = append(obs.Runs, rec)
+		pl.mu.Lock()
+		obs.Starts = pl.starts
+		pl.mu.Unlock()
+		return
+	}
 	if c.Timer {
 		before := retries()
 		p := runOnce()
